@@ -32,6 +32,7 @@ type c07Session struct {
 	name string
 	prog []ssStep
 	pipe bool // path-only: also mutated in pipelined mode
+	idx  int
 }
 
 func ssBaseRnd() func() uint32 {
@@ -93,6 +94,9 @@ func checkC07(c *lib.Ctx) {
 	cfgs := []ssCfg{{Kind: "os"}, {Kind: "os", Alloc: true}, {Kind: "os", WorkDir: true}, {Kind: "rs"}, {Kind: "rs", Alloc: true}, {Kind: "rs", WorkDir: true, Alloc: true}}
 	if thorough {
 		cfgs = append(cfgs, ssCfg{Kind: "os", WorkDir: true, Alloc: true}, ssCfg{Kind: "rs", WorkDir: true})
+	}
+	for i := range sessions {
+		sessions[i].idx = i
 	}
 	for _, s := range sessions {
 		for _, st := range s.prog {
@@ -203,7 +207,9 @@ func checkC07(c *lib.Ctx) {
 				}
 				// type byte
 				orig := uint32(ssOpType[ri.job.Prog[i].Op])
-				if thorough && !pipe {
+				// every unknown type byte kills an os-backed server process (F4): a third of the os
+				// sessions use the sample instead of all 256 values to keep the tier near 10 minutes
+				if thorough && !pipe && (ri.job.Cfg.Kind == "rs" || ri.sess.idx%3 != 2) {
 					for v := uint32(0); v < 256; v++ {
 						if v != orig {
 							addMut(ri, ssMut{Kind: "type", Frame: i, Val: v})
